@@ -4,6 +4,7 @@ The main-loop fragment of the attack transition system with an abstract monotone
 (`advance d` may fire at any moment, `wake` only once the requested wait has elapsed).
 -/
 import Vegeta.Proofs.AttackInv
+import Vegeta.Extracted.Facts
 namespace Vegeta.Props.C04
 open Vegeta.Model.Attack Vegeta.Proofs.Attack
 
@@ -137,6 +138,15 @@ theorem released_hits_all_carried_out (h : Reachable w m d s) :
   have hrel := (pace_reachable h).rel
   have hsl := c.seqlen
   refine ⟨by omega, by omega, by omega⟩
+
+/-! #### source fact (binding) -/
+
+/-- The hand-off channel `ticks` (and `results`) is unbuffered: a released hit is in a worker's hands the moment
+the loop moves on (the model's `tick`), so "released" and "handed to a worker" coincide and nothing can be parked
+between the loop and the workers (seed `c04l` gave the channel one slot). -/
+theorem facts_handoff_unbuffered : Vegeta.Extracted.attackChans =
+    [[114, 101, 115, 117, 108, 116, 115, 32, 117, 110, 98, 117, 102, 102, 101, 114, 101, 100],
+     [116, 105, 99, 107, 115, 32, 117, 110, 98, 117, 102, 102, 101, 114, 101, 100]] := by decide
 
 /-! non-vacuity -/
 example : (run (init 1 1 10) [.ready, .paceWait 4, .advance 4, .wake, .tick, .advance 7, .deadline]).map
